@@ -415,9 +415,9 @@ def body_yaml(case):
 
 def tests(tier):
     return [
-        TestSpec("part-spec", gen_part, body_part, {"quick": 1500, "thorough": 150000}, tape=1024),
-        TestSpec("path-spec", gen_path, body_path, {"quick": 1500, "thorough": 150000}, tape=1280),
-        TestSpec("path-str", gen_str, body_str, {"quick": 1500, "thorough": 100000}, tape=512),
-        TestSpec("rule-spec", gen_rule, body_rule, {"quick": 1500, "thorough": 150000}, tape=1536),
-        TestSpec("yaml", gen_yaml, body_yaml, {"quick": 600, "thorough": 40000}, tape=3072),
+        TestSpec("part-spec", gen_part, body_part, {"quick": 1500, "thorough": 150000}, tape=1024, fuzz={"thorough": 40000}),
+        TestSpec("path-spec", gen_path, body_path, {"quick": 1500, "thorough": 150000}, tape=1280, fuzz={"thorough": 40000}),
+        TestSpec("path-str", gen_str, body_str, {"quick": 1500, "thorough": 100000}, tape=512, fuzz={"thorough": 40000}),
+        TestSpec("rule-spec", gen_rule, body_rule, {"quick": 1500, "thorough": 150000}, tape=1536, fuzz={"thorough": 40000}),
+        TestSpec("yaml", gen_yaml, body_yaml, {"quick": 600, "thorough": 40000}, tape=3072, fuzz={"thorough": 15000}),
     ]
